@@ -17,6 +17,8 @@ struct Cfg {
     probe: bool,
     /// instance label of the first service
     label: &'static str,
+    /// a second address of the first family in the first interface's subnet
+    extra_addr: bool,
 }
 
 const OFFSETS: [u64; 5] = [0, 0, 100, 300, 800];
@@ -41,6 +43,9 @@ fn run_case(c: &Cfg, trace: bool) -> CaseResult {
     if c.family != 0 {
         intfs.push(v6("sim0", IF0, "fd00::1", 64));
         ips.push("fd00::5".into());
+    }
+    if c.extra_addr {
+        ips.push(if c.family != 1 { "10.0.0.6".into() } else { "fd00::6".into() });
     }
     if c.two_intf {
         if c.family != 1 {
@@ -277,6 +282,18 @@ fn run_case(c: &Cfg, trace: bool) -> CaseResult {
                         })
                 });
                 if !held {
+                    // each host-name probe proposes every address the service has on this link
+                    let want_addrs = (if c.family == 2 { 2 } else { 1 }) + (c.extra_addr && i == IF0) as usize;
+                    for (t, o, _) in on_if.iter() {
+                        if let Ok(m) = &o.msg {
+                            if !m.is_response() && asks(m, &s.host, T_ANY) && *t < a1 {
+                                let got = m.authorities.iter().filter(|r| (r.rtype == T_A || r.rtype == T_AAAA) && name_eq_ci(&r.name, &s.host)).count();
+                                if got != want_addrs && k == 0 {
+                                    res.viols.push(viol("C07|host-probe-does-not-propose-all-addresses-of-the-link", format!("{tag} if {i} at +{}: {} address records in the authority section, the service has {} on this link: {}", t - T0, got, want_addrs, m.summary())));
+                                }
+                            }
+                        }
+                    }
                     let ph = probe_times(&s.host, &host_ok);
                     if !three(&ph) {
                         res.viols.push(viol(
@@ -352,7 +369,7 @@ fn run_case(c: &Cfg, trace: bool) -> CaseResult {
                     let want = match c.family {
                         2 => 2,
                         _ => 1,
-                    };
+                    } + (c.extra_addr && i == IF0) as usize;
                     if addr_union.len() != want {
                         res.viols.push(viol(
                             "C07|announcement-addresses-not-those-of-the-link",
@@ -593,9 +610,9 @@ pub fn check(tier: &str) -> i32 {
     let cfg_of = |i: u64| -> Cfg {
         let x = unrank(i, &dims);
         if thorough {
-            Cfg { subtype: x[0] == 1, family: x[1], two_intf: x[2] == 1, second: x[3], j1: x[4], later: x[5], probe: true, label: "one" }
+            Cfg { subtype: x[0] == 1, family: x[1], two_intf: x[2] == 1, second: x[3], j1: x[4], later: x[5], probe: true, label: "one", extra_addr: false }
         } else {
-            Cfg { subtype: x[0] == 1, family: [0, 2][x[1] as usize], two_intf: x[2] == 1, second: [0, 1, 3][x[3] as usize], j1: x[4], later: x[5], probe: true, label: "one" }
+            Cfg { subtype: x[0] == 1, family: [0, 2][x[1] as usize], two_intf: x[2] == 1, second: [0, 1, 3][x[3] as usize], j1: x[4], later: x[5], probe: true, label: "one", extra_addr: false }
         }
     };
     let main = FnPart {
@@ -615,21 +632,22 @@ pub fn check(tier: &str) -> i32 {
         describe: Box::new(|i| format!("{:?}", unrank(i, &cdims))),
         run: Box::new(|i, tr| {
             let x = unrank(i, &cdims);
-            run_case(&Cfg { subtype: x[0] == 1, family: x[1], two_intf: x[2] == 1, second: x[3] * 2, j1: 100, later: 0, probe: false, label: "one" }, tr)
+            run_case(&Cfg { subtype: x[0] == 1, family: x[1], two_intf: x[2] == 1, second: x[3] * 2, j1: 100, later: 0, probe: false, label: "one", extra_addr: false }, tr)
         }),
     };
     rep.run_part(&ctl, Duration::from_secs(60));
     // other instance-name shapes
     const LABELS: [&str; 5] = ["One", "MY PRINTER", "Ünal Büro", "My.Printer", "nnnnnnnnnnnnnnnnnnnnnnnnnnnnnnnnnnnnnnnnnnnnnnnnnnnnnnnnnnnnnnn"];
-    let sdims = [LABELS.len() as u64, 3, 2, 2];
+    let sdims = [LABELS.len() as u64 + 1, 3, 2, 2];
     let shapes = FnPart {
         name: "instance-name-shapes".into(),
-        rule: "the same schedule oracle for instance labels with capital letters, non-ASCII capitals, a dot inside the label and 63 bytes x 3 jitters x (IPv4 / dual) x (alone / second service 300 ms later)".into(),
+        rule: "the same schedule oracle for instance labels with capital letters, non-ASCII capitals, a dot inside the label and 63 bytes, and for a service with two addresses of one family on the link, x 3 jitters x (IPv4 / dual) x (alone / second service 300 ms later)".into(),
         n: product(&sdims),
-        describe: Box::new(move |i| { let x = unrank(i, &sdims); format!("label {:?} jitter {} family {} second {}", LABELS[x[0] as usize], [0, 137, 249][x[1] as usize], [0, 2][x[2] as usize], x[3]) }),
+        describe: Box::new(move |i| { let x = unrank(i, &sdims); format!("label {:?} jitter {} family {} second {}", if (x[0] as usize) < LABELS.len() { LABELS[x[0] as usize] } else { "one, two addresses of one family on the link" }, [0, 137, 249][x[1] as usize], [0, 2][x[2] as usize], x[3]) }),
         run: Box::new(move |i, tr| {
             let x = unrank(i, &sdims);
-            run_case(&Cfg { subtype: false, family: [0, 2][x[2] as usize], two_intf: false, second: x[3] * 3, j1: [0, 137, 249][x[1] as usize], later: 1, probe: true, label: LABELS[x[0] as usize] }, tr)
+            let extra = x[0] as usize == LABELS.len();
+            run_case(&Cfg { subtype: false, family: [0, 2][x[2] as usize], two_intf: false, second: x[3] * 3, j1: [0, 137, 249][x[1] as usize], later: 1, probe: true, label: if extra { "one" } else { LABELS[x[0] as usize] }, extra_addr: extra }, tr)
         }),
     };
     rep.run_part(&shapes, Duration::from_secs(60));
